@@ -24,22 +24,22 @@ type LoopSpec struct {
 }
 
 type FuncContract struct {
-	Key      string // "Recv.Name" or "Name" (package-local)
-	RecvName string
-	PkgPath  string
-	Requires []*Clause
-	Ensures  []*Clause
-	Maintains []*Clause
-	Asserts  map[int][]*Clause
+	Key          string // "Recv.Name" or "Name" (package-local)
+	RecvName     string
+	PkgPath      string
+	Requires     []*Clause
+	Ensures      []*Clause
+	Maintains    []*Clause
+	Asserts      map[int][]*Clause
 	NamedAsserts map[string][]*Clause
-	Modifies []string
-	Loops    map[int]*LoopSpec
-	Flags    map[string]string // nooverflow, may_panic, inline, deterministic, mode, bytes, trusted, pure
-	Extern   bool
-	Params   []string // for extern contracts: parameter names
-	Results  []string // for extern contracts: result names
-	File     string
-	Line     int
+	Modifies     []string
+	Loops        map[int]*LoopSpec
+	Flags        map[string]string // nooverflow, may_panic, inline, deterministic, mode, bytes, trusted, pure
+	Extern       bool
+	Params       []string // for extern contracts: parameter names
+	Results      []string // for extern contracts: result names
+	File         string
+	Line         int
 }
 
 type SpecFn struct {
@@ -73,13 +73,13 @@ type NamedInv struct {
 }
 
 type ContractSet struct {
-	Funcs  map[string]*FuncContract // key: pkgpath + "." + Key
-	Specs  map[string]*SpecFn       // by name (global namespace, must be unique)
-	Axioms []*Clause
-	Ghosts map[string]*GhostDecl
-	Invs   map[string]*NamedInv
-	Lemmas []*Lemma
-	Files  []string
+	Funcs       map[string]*FuncContract // key: pkgpath + "." + Key
+	Specs       map[string]*SpecFn       // by name (global namespace, must be unique)
+	Axioms      []*Clause
+	Ghosts      map[string]*GhostDecl
+	Invs        map[string]*NamedInv
+	Lemmas      []*Lemma
+	Files       []string
 	OpaqueSorts map[string]bool
 }
 
